@@ -211,6 +211,23 @@ func (g *govWorld) distUpdate(r *kernel.Run, rng *kernel.Rng, authority string) 
 				}
 			}
 		}
+		switch rng.Intn(8) {
+		case 0:
+			// an existing sub-distributor, a destination it does not have
+			if len(cur.SubDistributors) > 0 {
+				sdName, shName = cur.SubDistributors[rng.Intn(len(cur.SubDistributors))].Name, "nope"
+			}
+		case 1:
+			// ... or the destination of another sub-distributor
+			if len(names) > 1 {
+				y := names[rng.Intn(len(names))]
+				for i := range y {
+					if y[i] == '|' {
+						shName = y[i+1:]
+					}
+				}
+			}
+		}
 		share := genShare(rng)
 		if rng.P(0.3) {
 			share = sdk.NewDecWithPrec(int64(rng.Range(90, 99)), 2)
